@@ -608,7 +608,7 @@ def check_caches(rep: Report, rc: str, m, modules: Optional[Tuple[str, ...]] = N
 
 def _check_state(rep: Report, m) -> None:
     prog = m.prog
-    rc = rep.rule("C17.c", "no state leaks across assets or runs: caches, class-level and module-level containers, the per-asset engine, shared method plugins", floor=12)
+    rc = rep.rule("C17.c", "no state leaks across assets or runs: caches, class-level and module-level containers, the per-asset engine, shared method plugins", floor=12, definite=True)
     # (1) functools caches
     check_caches(rep, rc, m)
     # (1b) a per-asset / per-run reset must bind the attribute that is read (private names are mangled per class)
